@@ -236,6 +236,7 @@ pub fn prop() -> Prop {
         assumptions: &["probabilities compared within 4 ulp; sums within 1e-9"],
         post: None,
         watchdog_s: 60,
+        hang_is_violation: false,
         shrink_iters: 3000,
     }
 }
